@@ -1,6 +1,6 @@
 """C14 Source locations — offset-carrying clauses."""
 import re
-from ..mirlib import load, callee_key
+from ..mirlib import load, callee_key, atoms_of_operand
 from ..facts import EngineError
 from . import shared_mir as sm
 from .c02 import TypeInfo, receiver_path
@@ -85,9 +85,15 @@ def run(ctx):
         r.violate("iter_attrs|value-start", "iter_attrs no longer computes the value start offset (NonZero::new(base + value.start))", None)
     else:
         f2, bi, t = nz
-        d = f2.describe_operand(t["args"][0])
-        if not ("base" in d and "value.start" in d and "Add" in d):
-            r.violate("iter_attrs|value-start", f"value location start is `{d}`, expected base + value.start", f2.loc())
+        d = f2.deep(t["args"][0])
+        at = atoms_of_operand(f2, t["args"][0])
+        own = sorted(a for a in at if a.startswith("arg2"))
+        r.analysed["value_start_provenance"] = sorted(at)
+        if "arg1.base" not in at or "Add" not in d or not any(a.endswith("value.start") for a in own) or any(a.endswith(("name.start", "raw_range.start", "raw_range.end", "value.end")) for a in own):
+            r.violate("iter_attrs|value-start", f"value location start is `{d[:120]}` (from {sorted(at)}), expected the tag's document offset (base) + the outline's value start", f2.loc())
+        r.inst("iter_attrs|valueless-fallback")
+        if not any(a.endswith("name.end") for a in own):
+            r.violate("iter_attrs|valueless-fallback", "the location of an attribute without a value is derived from its unset (0..0) value range alone: the presence marker NonZero::new(base + 0) is None in the first parsed buffer and `base..base` later, so name/value locations of `<input disabled>` depend on how the input was split into writes", f2.loc())
         # name start: find an Add of base and name.start in the same closure tree
         found = False
         for g2 in [x for x in mir.fns if x.key.startswith(f2.key)]:
